@@ -80,7 +80,9 @@ var c08LookAlikes = []string{
 	"1.000000059604644775390625000000000000000001", "1.000000059604644775390625", "16777217", "9007199254740993",
 	"0.1", "1e-50", "4.9e-324", "1e-400", "0x1p-2", "1_0.5", "1.5", "-2.25", "1e3", "2.5e-3",
 	"1.7976931348623157e308", "1.7976931348623159e308", "7.038531e-26", "7.0385307e-26",
-	"!x", "!", "x!",
+	"!x", "!", "x!", "!500", "!502 bad gateway", "!415", "!400", "!404", "!wrap",
+	// blank as a whole: "empty counts as absent" is exactly the empty string
+	" ", "  ", "\t", "\n", "\r\n", " \t ", "\v", "\f", "\u00a0", "\u2003", "\u3000", "\u0085", "\u00a0 ", "\u200b",
 	"1s", "1.5h", "-3ms", "1h2m3s", "1d", "9223372036854775807ns", "9223372036854775808ns",
 	"2562047h47m16.854775807s", "2562047h47m16.854775808s", "-2562047h47m16.854775808s", "-2562047h47m16.854775809s",
 	"1µs", "1us", "1μs", ".5s", "1.s", "s", "+1s", "1 s", "1h-1m", "0s", "1ns", "0.5ns", "1m1",
@@ -495,6 +497,12 @@ func c08GenChain(r *rand.Rand) *c08Case {
 	if r.Intn(5) < 2 { // the binder as its constructor returns it: no FailFast call before the first op
 		c.Default, c.FailFast = true, false
 	}
+	switch r.Intn(8) { // the application's ErrorFunc
+	case 0:
+		c.ErrFunc = "nil"
+	case 1:
+		c.ErrFunc = "plain"
+	}
 	n := 2 + r.Intn(5)
 	pBad := []int{5, 25, 50}[r.Intn(3)]
 	for i := 0; i < n; i++ {
@@ -550,6 +558,9 @@ func c08GenStruct(r *rand.Rand) *c08Case {
 	switch c.Source {
 	case "form", "multipart", "json", "xml":
 		c.LenMode = c08RandLenMode(r)
+	}
+	if c.Source == "json" && r.Intn(3) == 0 {
+		c.Serial = "raw"
 	}
 	n := 1 + r.Intn(6)
 	pBad := []int{3, 15, 40}[r.Intn(3)]
@@ -611,6 +622,9 @@ func c08Probe(r *rand.Rand) []any {
 		pc := &c08Case{Kind: "vb", FailFast: r.Intn(2) == 0, Ops: []c08Op{{Kind: "call", Call: cl}, {Kind: "binderrors"}}}
 		if r.Intn(3) == 0 {
 			pc.Default, pc.FailFast, pc.Binder = true, false, []string{"", "form", "path", "multipart"}[r.Intn(4)]
+		}
+		if r.Intn(8) == 0 {
+			pc.ErrFunc = []string{"nil", "plain"}[r.Intn(2)]
 		}
 		out = append(out, pc)
 	}
@@ -675,6 +689,38 @@ func c08Probe(r *rand.Rand) []any {
 					ops = append(ops, c08Op{Kind: "binderrors"})
 				}
 				out = append(out, &c08Case{Kind: "vb", Default: true, Binder: binder, Ops: ops})
+			}
+		}
+	}
+	// an application ErrorFunc that returns nil / a plain error: a failing conversion must still
+	// freeze a fail-fast chain and must still keep a slice method from storing its temporary
+	for _, ef := range []string{"nil", "plain"} {
+		for _, ff := range []int{0, 1, 2} { // explicit true, explicit false, constructor default
+			for _, binder := range []string{"", "path", "form"} {
+				sliceBad := func(m string, vals ...string) c08Op {
+					return c08Op{Kind: "call", Call: &c08Call{Method: m, Values: vals, Init: []string{"7"}}}
+				}
+				chains := [][]c08Op{
+					{{Kind: "call", Call: bad}, {Kind: "call", Call: &c08Call{Method: "Int", Values: []string{"5"}, Init: []string{"7"}}}, {Kind: "binderrors"}},
+					{sliceBad("Int64s", "1", "x", "3"), {Kind: "binderrors"}},
+					{sliceBad("Uint8s", "1", "256"), sliceBad("Bools", "true", "false"), {Kind: "binderror"}},
+					{sliceBad("Float32s", "1.5", "1e39", "2"), sliceBad("Durations", "1s", "x"), {Kind: "binderrors"}},
+					{{Kind: "call", Call: &c08Call{Method: "BindWithDelimiter", Elem: "[]int16", Values: []string{"1,x,3"}, Delim: ",", Init: []string{"7"}}},
+						{Kind: "call", Call: &c08Call{Method: "MustBool", Values: nil, Init: []string{"true"}}}, {Kind: "call", Call: &c08Call{Method: "Bool", Values: []string{"false"}, Init: []string{"true"}}}, {Kind: "binderror"}, {Kind: "binderror"}},
+					{{Kind: "call", Call: &c08Call{Method: "Times", Values: []string{"2020-01-01", "x"}, Layout: "2006-01-02", Init: []string{"7.000000000@0"}}},
+						{Kind: "custom", Custom: &c08Custom{Values: []string{"a", "!b"}, InitNil: true}}, {Kind: "binderrors"}},
+					{{Kind: "custom", Custom: &c08Custom{Values: []string{"!a"}, InitNil: true}}, {Kind: "call", Call: bad}, {Kind: "binderror"}},
+				}
+				for _, ops := range chains {
+					cs := &c08Case{Kind: "vb", ErrFunc: ef, Binder: binder, Ops: ops}
+					switch ff {
+					case 0:
+						cs.FailFast = true
+					case 2:
+						cs.Default = true
+					}
+					out = append(out, cs)
+				}
 			}
 		}
 	}
@@ -911,6 +957,16 @@ func c08Shrink(ci any) []any {
 			d.Ops = append(append([]c08Op(nil), c.Ops[:i]...), c.Ops[i+1:]...)
 			out = append(out, &d)
 		}
+	}
+	if c.ErrFunc != "" {
+		d := *c
+		d.ErrFunc = ""
+		out = append(out, &d)
+	}
+	if c.ErrFunc == "plain" {
+		d := *c
+		d.ErrFunc = "nil"
+		out = append(out, &d)
 	}
 	if c.Binder != "" && c.Binder != "path" && !c.Default {
 		d := *c
